@@ -345,7 +345,8 @@ def stamp_position_rule(ctx, rule, prefixes, floor):
             g = fb.fns.get(c.get("f") or "")
             if g is not None and g.key != f.key and _advances_position(fb, g, is_size):
                 good.add(b)
-        ex = C.success_exit_blocks(f)
+        # a Poll::Pending return counts as an exit too: the stamped block already sits in the reader, a position kept in a local is lost
+        ex = C.success_exit_blocks(f) + [b for b, k in C.exit_points(f) if k == "pending"]
         bad = None
         for sb in stamps:
             if sb in good:
